@@ -336,6 +336,8 @@ def run(ctx):
     r.idiom("C06.6", len(ds) == 1 and norm(ds[0].value).startswith("self.charEncoding[0].codec_info.streamreader(self.rawStream"),
             "decoder", rs.where, "the decoder is not built from self.charEncoding[0] over rawStream")
     meta_rules(ctx)
+    prescan_tag_rules(ctx)
+    prescan_dispatch_position(ctx)
 
 
 def meta_rules(ctx):
@@ -424,6 +426,82 @@ def meta_rules(ctx):
                 "`charset= \"utf-8\"` yields an empty / wrong label", detail={"skip_before_quote_test": eq_tests[0].id not in par})
 
 
+def prescan_tag_rules(ctx):
+    """C06.8: the prescan skips over a tag by reading its attributes one by one -- for end tags as well as start tags (a `>`
+    inside a quoted attribute value of an end tag does not end it) -- unless the tag name runs into another `<`."""
+    from ..partition import MiniInterp, Opaque
+    r = ctx.r
+    ce = ctx.ce
+    r.rule("C06.8", "prescan: every tag that starts with a letter has its attributes parsed (start and end tags alike)", floor=8)
+    f = ctx.repo.func(REL, "EncodingParser.handlePossibleTag")
+    p = f.params()[1]
+    for end_tag in (False, True):
+        for first in (b"a", b"1"):
+            for stop in (b"<", b" ", b">", b"/"):
+                got = []
+
+                def hook(node, local, first=first, stop=stop):
+                    t = norm(node)
+                    if t in ("data.currentByte", "self.data.currentByte"):
+                        return first
+                    if isinstance(node, ast.Call) and norm(node.func) in ("data.skipUntil", "self.data.skipUntil"):
+                        return stop
+                    return NotImplemented
+
+                def stmt_hook(st, out, interp, got=got):
+                    if isinstance(st, ast.Assign) and "getAttribute()" in norm(st.value):
+                        got.append(st)
+                        out.env[norm(st.targets[0])] = None
+                        return False
+                    if isinstance(st, ast.While) and "getAttribute" in norm(st):
+                        return False
+                    if isinstance(st, ast.Assign) and norm(st.value) in ("self.data",):
+                        out.env[norm(st.targets[0])] = Opaque("data")
+                        return False
+                    return NotImplemented
+                interp = MiniInterp(ce, f.module, expr_hook=hook, stmt_hook=stmt_hook)
+                key = "prescan-tag[end=%d first=%s next=%s]" % (end_tag, first.decode(), stop.decode())
+                try:
+                    interp.run(f.node.body, {p: end_tag, "self": Opaque("self")})
+                except AnalysisError as e:
+                    r.idiom("C06.8", False, key, f.where, "handlePossibleTag not decidable (%s)" % str(e)[:80])
+                    continue
+                exp = first == b"a" and stop != b"<"
+                r.check("C06.8", bool(got) == exp, key, f.where,
+                        "prescan, %s tag starting with %r, name followed by %r: attributes are %s; the standard %s -- otherwise a `>` inside "
+                        "an attribute value ends the tag early and the text after it is scanned as markup" % (
+                            "end" if end_tag else "start", first.decode(), stop.decode(), "parsed" if got else "not parsed",
+                            "parses them" if exp else "does not"), {"end_tag": end_tag}, detail={"end_tag": end_tag, "attributes_parsed": bool(got)})
+
+
+def prescan_dispatch_position(ctx):
+    """C06.9: matchBytes leaves the position on the first byte *after* the matched prefix, and handlePossibleTag tests the byte
+    at the position for "ASCII letter".  The handlers the dispatch table maps `<` and `</` to must therefore hand over without
+    moving the position (sibling agreement): an extra advance makes the test look at the second letter, so one-letter end tags
+    (`</p ...>`) are taken for bogus markup and skipped to the next `>`, even one inside a quoted attribute value."""
+    r = ctx.r
+    r.rule("C06.9", "prescan tag handlers hand over to handlePossibleTag at the position matchBytes left", floor=2)
+    cls = ctx.repo.cls(REL, "EncodingParser")
+    mb = ctx.repo.func(REL, "EncodingBytes.matchBytes")
+    after = any(isinstance(s, ast.AugAssign) and norm(s.target) == "self.position" and norm(s.value).startswith("len(") for s in ast.walk(mb.node))
+    r.idiom("C06.9", after, "matchBytes-positions-after-prefix", mb.where, "matchBytes no longer advances the position by the length of the prefix")
+    for m in cls.methods.values():
+        body = [s for s in m.node.body if not (isinstance(s, ast.Expr) and isinstance(s.value, ast.Constant))]
+        if not body or not (isinstance(body[-1], ast.Return) and isinstance(body[-1].value, ast.Call) and
+                            norm(body[-1].value.func) == "self.handlePossibleTag"):
+            continue
+        moves = [norm(s) for s in body[:-1] if any(
+            (isinstance(c, ast.Call) and (norm(c.func) in ("next", "self.data.next", "self.data.__next__", "self.data.previous") or
+                                          norm(c.func).endswith((".skip", ".skipUntil", ".jumpTo")))) or
+            (isinstance(c, (ast.Assign, ast.AugAssign)) and "position" in norm(c.targets[0] if isinstance(c, ast.Assign) else c.target))
+            for c in ast.walk(s))]
+        r.check("C06.9", not moves or not after, "handover::%s" % m.name, m.where,
+                "%s moves the read position (%s) before handing over to handlePossibleTag although matchBytes already left it on the "
+                "first byte of the tag name: the ASCII-letter test is made on the second byte, so `</p title=\"><meta charset=x>\">` "
+                "is skipped only up to the first `>` and the attribute text is scanned as markup" % (m.qual, moves[:1]),
+                {"method": m.name}, detail={"method": m.name, "moves": moves})
+
+
 def thorough(ctx):
     from .. import selftest
     selftest.run(ctx, sys.modules[__name__])
@@ -438,6 +516,8 @@ def mutants():
                 "        charEncoding = lookupEncoding(self.transport_encoding), \"certain\"\n"
                 "        if charEncoding[0] is not None:\n            return charEncoding\n\n")
     return [
+        T("endtag-extra-advance", REL, "    def handlePossibleEndTag(self):\n        return self.handlePossibleTag(True)", "    def handlePossibleEndTag(self):\n        next(self.data)\n        return self.handlePossibleTag(True)", "C06.9"),
+        T("endtag-skip-attrs", REL, "        else:\n            # Read all attributes\n            attr = self.getAttribute()", "        elif endTag:\n            self.handleOther()\n        else:\n            # Read all attributes\n            attr = self.getAttribute()", "C06.8"),
         T("late-meta-case-sensitive", "html5parser.py", "                  attributes[\"http-equiv\"].lower() == \"content-type\"):", "                  attributes[\"http-equiv\"] == \"content-type\"):", "C06.7"),
         T("late-meta-any-content", "html5parser.py", "            elif (\"content\" in attributes and\n                  \"http-equiv\" in attributes and\n                  attributes[\"http-equiv\"].lower() == \"content-type\"):",
           "            elif \"content\" in attributes:", "C06.7"),
